@@ -17,7 +17,7 @@ import re
 import sys
 import traceback
 
-from ovld.utils import UsageError
+from .api import UsageError
 
 
 class HarnessExc(Exception):
